@@ -106,8 +106,8 @@ func processHTTPRouteRule(
 		var interfaceFilters []interface{}
 		if len(b.Filters) > 0 {
 			interfaceFilters = make([]interface{}, 0, len(b.Filters))
-			for i, v := range b.Filters {
-				interfaceFilters[i] = v
+			for _, v := range b.Filters {
+				interfaceFilters = append(interfaceFilters, v)
 			}
 		}
 		rbr := RouteBackendRef{
